@@ -582,9 +582,74 @@ func ruleC14Empty(c *Ctx) {
 		}
 	}
 	n := 0
-	guardedBy := func(fi *FactInfo, b *ssa.BasicBlock, v ssa.Value) bool {
-		return fi.HoldsWhere(b, func(f Fact) bool { return f.Kind == "nonnil" && f.Pol && sameAddr(f.V, v) })
+	delegated := false // while true, a *llrb.Node parameter counts as guarded (the callers' obligation, checked at (2))
+	var guardedAt func(fi *FactInfo, fs factSet, v ssa.Value, depth int) bool
+	guardedAt = func(fi *FactInfo, fs factSet, v ssa.Value, depth int) bool {
+		for f := range fs {
+			if f.Kind == "nonnil" && f.Pol && sameAddr(f.V, v) {
+				return true
+			}
+		}
+		if _, isParam := v.(*ssa.Parameter); isParam && delegated {
+			return true
+		}
+		// a join: non-nil when it is non-nil on every incoming edge (loop-carried values included)
+		if phi, isPhi := v.(*ssa.Phi); isPhi && depth < 3 {
+			for i, e := range phi.Edges {
+				if e == ssa.Value(phi) {
+					continue
+				}
+				pred := phi.Block().Preds[i]
+				if !guardedAt(fi, fi.outFacts(pred, phi.Block()), e, depth+1) {
+					return false
+				}
+			}
+			return true
+		}
+		return false
 	}
+	guardedBy := func(fi *FactInfo, b *ssa.BasicBlock, v ssa.Value) bool {
+		return guardedAt(fi, fi.At(b), v, 0)
+	}
+	// derefsDeep: dereferences of v itself or of a join that v flows into (with the value dereferenced)
+	type derefSite struct {
+		in  ssa.Instruction
+		val ssa.Value
+	}
+	var derefsDeep func(fn *ssa.Function, v ssa.Value, seen map[ssa.Value]bool) []derefSite
+	derefsDeep = func(fn *ssa.Function, v ssa.Value, seen map[ssa.Value]bool) []derefSite {
+		if seen[v] {
+			return nil
+		}
+		seen[v] = true
+		var out []derefSite
+		for _, d := range derefs(fn, v) {
+			out = append(out, derefSite{d, v})
+		}
+		for _, r := range *v.Referrers() {
+			if phi, ok := r.(*ssa.Phi); ok {
+				out = append(out, derefsDeep(fn, phi, seen)...)
+			}
+		}
+		return out
+	}
+	for _, fn := range fns {
+		fi := ComputeFacts(fn)
+		for i, prm := range fn.Params {
+			if !isNodePtr(prm.Type()) {
+				continue
+			}
+			for _, ds := range derefsDeep(fn, prm, map[ssa.Value]bool{}) {
+				if !guardedBy(fi, ds.in.Block(), ds.val) {
+					if unguardedParam[fn] == nil {
+						unguardedParam[fn] = map[int]bool{}
+					}
+					unguardedParam[fn][i] = true
+				}
+			}
+		}
+	}
+	delegated = true
 	for _, fn := range fns {
 		var fi *FactInfo
 		for _, b := range fn.Blocks {
@@ -592,13 +657,14 @@ func ruleC14Empty(c *Ctx) {
 				// (1) loads of node-pointer fields that are dereferenced directly
 				if u, ok := in.(*ssa.UnOp); ok && u.Op == token.MUL && isNodePtr(u.Type()) {
 					if fa, isField := u.X.(*ssa.FieldAddr); isField && isLLRB(fa.X.Type()) {
-						for _, d := range derefs(fn, u) {
+						for _, ds := range derefsDeep(fn, u, map[ssa.Value]bool{}) {
+							d := ds.in
 							if fi == nil {
 								fi = ComputeFacts(fn)
 							}
 							n++
 							construct := FnName(fn) + ": " + describeValue(u)
-							c.Check(guardedBy(fi, d.Block(), u), "C14.EMPTY", construct, p.Pos(d.Pos()), "node pointer is nil-tested before it is dereferenced", "an llrb node pointer read from a tree/cursor field is dereferenced without a nil test (empty tree / exhausted cursor ⇒ panic)")
+							c.Check(guardedBy(fi, d.Block(), ds.val), "C14.EMPTY", construct, p.Pos(d.Pos()), "node pointer is nil-tested before it is dereferenced", "an llrb node pointer read from a tree/cursor field is dereferenced without a nil test (empty tree / exhausted cursor ⇒ panic)")
 						}
 					}
 				}
@@ -629,7 +695,7 @@ func ruleC14Empty(c *Ctx) {
 			}
 		}
 	}
-	c.Floor("C14.EMPTY", 3)
+	c.Floor("C14.EMPTY", 1)
 }
 
 // ---- DIRECTION -------------------------------------------------------------------------------
